@@ -78,14 +78,18 @@ EX = [
     ('exc_custom', ">>> class E{k}(Exception):\n...     pass\n>>> raise E{k}(T({k}, 'cu'))"),
     ('exc_nomsg', ">>> raise RuntimeError if T({k}, 1) else None"),
     ('exc_multiline_msg', ">>> raise ValueError(T({k}, 'l1\\nl2'))"),
+    # IGNORE_EXCEPTION_DETAIL with an exception class that lives two modules deep
+    ('ied_nested', ">>> import json\n>>> json.loads(T({k}, '{{')) # doctest: +IGNORE_EXCEPTION_DETAIL"),
     ('exc_note', ">>> e{k} = ValueError(T({k}, 'm'))\n>>> e{k}.add_note('a note')\n>>> raise e{k}"),
     ('exc_syntax', ">>> compile(T({k}, '1 +'), 's', 'eval')"),
 ]
 EXD = dict(EX)
-SPECIAL_WANT = {'dir_comma': '[0, ..., 19] a b', 'dir_space': '[0, ..., 19] a b', 'ell': '[0, 1, ..., 19]', 'skipd': 'nope', 'nws': 'a b',
+SPECIAL_WANT = {'ied_nested': 'Traceback (most recent call last):\nJSONDecodeError: whatever',
+                'dir_comma': '[0, ..., 19] a b', 'dir_space': '[0, ..., 19] a b', 'ell': '[0, 1, ..., 19]', 'skipd': 'nope', 'nws': 'a b',
                 'ied': 'Traceback (most recent call last):\nValueError: other',
                 'raise_stack': 'Traceback (most recent call last):\n  File "<stdin>", line 1, in <module>\nKeyError: \'kk\''}
 SEPS = ['none', 'blank', 'prose']
+SHIFTS = ['in', 'out']       # only directly after a want: every example carries its own indentation
 INDENTS = [0, 4, 8]
 
 
@@ -147,8 +151,11 @@ def build(indent, events):
         want_after[end] = ei
         last_example_of_chunk[chunk_of_line[ex.lineno]] = ei
     out = []
+    off = indent                 # absolute indentation of the current example
+    had_want = False
     for li, line in enumerate(lines0):
-        out.append(line)
+        out.append(' ' * off + line)
+        had_want = False            # the last line written so far is a source line
         ci = chunk_of_line[li]
         if li in want_after:
             ei = want_after[li]
@@ -156,18 +163,21 @@ def build(indent, events):
             k = events[ci][0]
             if k in SPECIAL_WANT and last_example_of_chunk.get(ci) == ei:
                 got = SPECIAL_WANT[k] + '\n'
+            had_want = bool(got)
             if got:
                 wl = got.split('\n')[:-1]
-                out += [l if l.strip() else '<BLANKLINE>' for l in wl]
+                out += [' ' * off + (l if l.strip() else '<BLANKLINE>') for l in wl]
         if li + 1 == len(lines0) or chunk_of_line[li + 1] != ci:
             sep = events[ci][1]
             if sep == 'blank':
                 out.append('')
             elif sep == 'prose':
-                out += ['', 'Some prose here.', '']
-    text = '\n'.join(out) + '\n'
-    if indent:
-        text = '\n'.join(' ' * indent + l if l else l for l in text.split('\n'))
+                out += ['', ' ' * off + 'Some prose here.', '']
+            elif sep in SHIFTS:
+                if not had_want or (sep == 'out' and off == 0):
+                    raise ValueError('shift not enabled here')
+                off += 4 if sep == 'in' else -4
+    text = '\n'.join(l if l.strip() else '' for l in out) + '\n'
     return text
 
 
@@ -187,7 +197,8 @@ class CompatSpec(Spec):
     prop = 'C20'
     title = 'standard-syntax doctests: stdlib doctest vs xdoctest'
 
-    def __init__(self, name, max_len, max_cost=99, min_len=1):
+    def __init__(self, name, max_len, max_cost=99, min_len=1, shifts=False):
+        self.shifts = shifts
         self.name = name
         self.max_len = max_len + 1
         self.max_cost = max_cost
@@ -202,7 +213,7 @@ class CompatSpec(Spec):
     def enabled(self, S, hist):
         if S is None:
             return [('indent', i) for i in INDENTS]
-        return [(k, sep) for k, _ in EX for sep in SEPS]
+        return [(k, sep) for k, _ in EX for sep in SEPS + (SHIFTS if self.shifts else [])]
 
     def cost(self, ev):
         if ev[0] == 'indent':
@@ -215,6 +226,8 @@ class CompatSpec(Spec):
         return min(S + 1, 3)
 
     def final(self, S, hist):
+        if self.shifts and not any(e[1] in SHIFTS for e in hist[1:]):
+            return False
         return len(hist) - 1 >= self.min_len and hist[-1][1] == 'none'
 
     def run_case(self, hist):
@@ -265,5 +278,7 @@ class CompatSpec(Spec):
 
 def specs(tier):
     if tier == 'thorough':
-        return [CompatSpec('examples<=2', 2), CompatSpec('examples=3', 3, 4, min_len=3)]
-    return [CompatSpec('examples<=2', 2), CompatSpec('examples=3', 3, 2, min_len=3)]
+        return [CompatSpec('examples<=2', 2), CompatSpec('examples=3', 3, 4, min_len=3),
+                CompatSpec('shifted<=3', 3, 5, min_len=2, shifts=True)]
+    return [CompatSpec('examples<=2', 2), CompatSpec('examples=3', 3, 2, min_len=3),
+            CompatSpec('shifted<=3', 3, 3, min_len=2, shifts=True)]
